@@ -11,6 +11,7 @@ header : `@ C16 k0 k1 …`  with `ki ∈ {bits, bitmap, dsz}` (1..4 registers)
 ops    : add r n | remove r n | contains r n | grow r n | len r | blen r | cap r
          clone d s | diff a b | intersect a b | merge a b
          iter k r | next k | value k | iterall r | range r stop | all r stop
+         caps     (capacity of every register's word slice in the one-memory model)
          layout   (word count per register + pairs of registers whose backing arrays overlap)
 -/
 import Golib.Model.C16Heap
@@ -22,7 +23,7 @@ def runCase (hdr : List String) (ops : List String) : List String :=
   match hdr.mapM parseKindH with
   | some kinds =>
     if kinds.length = 0 ∨ kinds.length > 4 then "bad-op" :: ops.map fun _ => "bad-op"
-    else "ok" :: hrunOps goGrow8 (some (HSt.init kinds)) ops
+    else "ok" :: hrunOpsC goGrow8 (some (HSt.init kinds)) ops
   | none => "bad-op" :: ops.map fun _ => "bad-op"
 
 end Golib.C16
